@@ -439,7 +439,9 @@ func (v *SequenceDiagramVisitor) visitEndpoint(e *EndpointElement) error {
 				if !isHidden {
 					fmt.Fprintf(v.w, "%s<--%s : %s\n", sender, agent, payload)
 				}
-				v.w.Deactivate(agent)
+				if upto != nil {
+					v.w.Deactivate(agent)
+				}
 			}
 		} else {
 			deactivate := v.w.Activated(agent, isHuman || isCron)
